@@ -13,13 +13,29 @@ SW_RESTART = "empty_restart_skips_deadline"
 SW_IDLE = "idle_scheduler_skips_deadline"
 
 
+# the values the proofs were instantiated with when this file was written; used ONLY to go on searching for a failing input when the
+# translator no longer recognises the source (the tie is then reported as broken, see consts_problem)
+LAST_KNOWN_CONSTS = {"slice_length": 150, "default_max_loop": 10000, "waituntil_cap": 30000}
+
+
 def build(thorough=False):
-    consts = consts_translator.generate()
+    try:
+        consts = consts_translator.generate()
+    except Exception as e:      # noqa: the source no longer has the shape the translator reads
+        consts = dict(LAST_KNOWN_CONSTS, _failed="translators/consts.py: " + str(e))
     M.diag_translator.generate()
     M.overloads_translator.generate()
     himpl = V.build_harness("h_sched", "asan" if thorough else "plain")
     drv = V.ocaml_driver("sched")
     return himpl, drv, consts
+
+
+def consts_problem(run, consts, problems):
+    """the constants of the scheduler could not be read from the source: the theorems instantiated with them are not shown to speak
+    about this code (reported unless the failed proof build already says so)"""
+    if consts.get("_failed") and not any("consts" in p for p in problems):
+        run.violation("the scheduler constants can no longer be read from the source: " + consts["_failed"],
+                      {"broken": consts["_failed"], "continuing_with": {k: v for k, v in consts.items() if k != "_failed"}}, found_input=False)
 
 
 def run_histories(himpl, drv, hists, defects=None, max_runtime_ms=0, tick_us=0, max_loop=10000, slice_=150):
